@@ -3,7 +3,7 @@
        event: K <path> <value> | T <path> | A <path>
        path : hex key segments joined by '.'   ("-" = empty key)
        value: L<id> | [v,v,...] | {path=v,...}
-   -> ok <canon> | conflict | err dup | err arr_as_table | err as_array | panic
+   -> ok <canon> | conflict | err dup | err arr_as_table | err as_array
      other case kinds (decided on the implementation alone) -> "-" *)
 open C12_model
 
@@ -92,7 +92,6 @@ let handle line =
      | Err EDup -> "err dup"
      | Err ERedeclArrayAsTable -> "err arr_as_table"
      | Err ERedeclAsArray -> "err as_array"
-     | Err EPanic -> "panic"
      | Ok None -> "conflict"
      | Ok (Some d) ->
        let c = canon leaves d in
